@@ -4,7 +4,7 @@ from symx.run import Case, new_result
 from checks import common, c13
 
 ID = "C20"
-CONDS = ["pair_keys3", "form_signatures3", "pair_keys", "density_keys_fs", "embed_keys", "form_signatures", "table_form_headers", "form_kinds", "added_duplicates", "form_kinds_crowded", "added_twice"]
+CONDS = ["pair_keys3", "form_signatures3", "pair_keys", "density_keys_fs", "embed_keys", "form_signatures", "table_form_headers", "form_kinds", "added_duplicates", "form_kinds_crowded", "added_twice", "table_form_headers_contexts", "form_signatures_contexts"]
 META = dict(
   functions=["config._config_parser.ConfigParser._init_config_parser (strict INI duplicate detection) / _check_for_duplicate_pairs / _RawConfigParser.optionxform / _ConfigParserDict",
              "config._config_parser._TableFormSection.check_for_duplicate_table_forms/_parse_name", "config._potential_form_registry.Potential_Form_Registry._build_potential_forms/_build_table_forms/"
@@ -12,7 +12,8 @@ META = dict(
   bounds=dict(quick=dict(pairs="two [Pair] entries with keys from 10 spellings (same, reversed, inner/trailing blanks and tabs, other pairs)",
                          densities="two A->B entries from 8 spellings; two [EAM-Embed]/[EAM-Density] entries from 5 spellings",
                          forms="two [Potential-Form] signatures from 6 spellings; two [Table-Form:..] headers from 5 spellings; a table form called like a custom form "
-                               "(either order in the file) or like a built-in form (as.buck, as.zero, as.buck4, as.exp_spline)"),
+                               "(either order in the file) or like a built-in form (as.buck, as.zero, as.buck4, as.exp_spline); the header and signature spellings again in three "
+                               "EAM model shapes (empty [Pair] section, form used by a density entry, form used by pair and embedding entries)"),
               thorough=dict(pairs="as quick", densities="as quick", forms="as quick")),
   stubs=["symbolic inputs are indices into the candidate spelling lists; the model text is generated from them and read by the real Configuration().read() outside the tracer"],
   outside=["keys beginning with white space (INI continuation lines)", "spellings outside the candidate lists"],
